@@ -89,13 +89,13 @@ func (l *ledger) key(name string) *ecdsa.PrivateKey {
 }
 
 type acctView struct {
-	bal, votes       *big.Int
-	voteFor          common.Address
-	isCand           int
-	deposit          string
-	income           common.Address
-	signers          types.Signers
-	incomeSet        bool
+	bal, votes *big.Int
+	voteFor    common.Address
+	isCand     int
+	deposit    string
+	income     common.Address
+	signers    types.Signers
+	incomeSet  bool
 }
 
 func (l *ledger) view(h common.Hash, a common.Address) acctView {
@@ -307,12 +307,12 @@ func ledgerScenario(c *Ctx, mode string) {
 		uk := l.key(u)
 		other := userNames[rnd.Intn(len(userNames))]
 		ok_ := l.key(other)
-		kinds := []string{"transfer", "transfer", "transfer", "overdraft", "vote", "vote", "register", "topup", "unregister", "box", "boxfail", "payer", "payer-unsigned", "wrongkey", "setsigners", "ms-ok", "ms-dup", "ms-mall", "ms-short", "ms-ownkey", "extrasig", "pricey", "zero", "tamper"}
+		kinds := []string{"transfer", "transfer", "transfer", "overdraft", "vote", "vote", "register", "topup", "unregister", "box", "boxfail", "payer", "payer-unsigned", "wrongkey", "setsigners", "ms-ok", "ms-dup", "ms-mall", "ms-short", "ms-ownkey", "extrasig", "pricey", "zero", "tamper", "tamper-box"}
 		switch l.mode {
 		case "c11":
 			kinds = []string{"transfer", "transfer", "vote", "vote", "vote", "register", "topup", "unregister", "box", "payer"}
 		case "c06":
-			kinds = []string{"transfer", "payer", "payer-unsigned", "wrongkey", "setsigners", "ms-ok", "ms-dup", "ms-mall", "ms-short", "ms-ownkey", "ms-ownkey", "extrasig", "tamper", "box"}
+			kinds = []string{"transfer", "payer", "payer-unsigned", "wrongkey", "setsigners", "ms-ok", "ms-dup", "ms-mall", "ms-short", "ms-ownkey", "ms-ownkey", "extrasig", "tamper", "tamper-box", "box"}
 		}
 		k := kinds[rnd.Intn(len(kinds))]
 		if contractBlock {
@@ -453,6 +453,33 @@ func ledgerScenario(c *Ctx, mode string) {
 			})
 			lt.tampered = true
 			lt.class = "tamper-" + field
+			return lt
+		case "tamper-box":
+			// the owner signs a box holding sub-tx A; afterwards the box DATA is edited at JSON level: A is replaced by B
+			// (validly signed by its own sender). The box signature covers the sub-tx hashes, so the box must be dead —
+			// also when B's informational "hash" member claims to be A's hash.
+			su, su2 := userNames[rnd.Intn(len(userNames))], userNames[rnd.Intn(len(userNames))]
+			a := txTransfer(l.key(su), keyAddr(ok_), lemo(1), TxOpt{Exp: exp(), Msg: u_("tba")})
+			b := txTransfer(l.key(su2), keyAddr(l.key("intruder")), lemo(3), TxOpt{Exp: exp(), Msg: u_("tbb")})
+			box := txBox(uk, types.Transactions{a}, TxOpt{Exp: exp(), Msg: u_("tbox")})
+			var bd map[string]interface{}
+			json.Unmarshal(box.Data(), &bd)
+			bj, _ := b.MarshalJSON()
+			var bm map[string]interface{}
+			json.Unmarshal(bj, &bm)
+			variant := []string{"claims-old-hash", "own-hash", "no-hash"}[rnd.Intn(3)]
+			switch variant {
+			case "claims-old-hash":
+				bm["hash"] = a.Hash().Hex()
+			case "no-hash":
+				delete(bm, "hash")
+			}
+			bd["subTxList"] = []interface{}{bm}
+			nd, _ := json.Marshal(bd)
+			lt := mk(txEdit(box, func(m map[string]interface{}) { m["data"] = common.ToHex(nd) }), k, u)
+			lt.subs = []*ledgerTx{mk(b, "sub", su2)}
+			lt.tampered = true
+			lt.class = "tamper-box-" + variant
 			return lt
 		case "extrasig":
 			// a plain account's tx with a surplus signature by a foreign key appended
@@ -969,7 +996,6 @@ func (l *ledger) tallyOK(h common.Hash, cand common.Address) bool {
 	return exp.Cmp(v.votes) == 0
 }
 
-
 // crossNode: C01's direct oracle. Node B (other history, sometimes restarted) validates the block node A
 // mined; then everything either node can say about the block and the touched accounts must be equal.
 func (l *ledger) crossNode(nb *Node, b *types.Block, cands types.Transactions, t uint32, byHash map[common.Hash]*ledgerTx) {
@@ -1068,7 +1094,6 @@ func accountJSON(n *Node, h common.Hash, a common.Address) string {
 	code, _ := acc.GetCode()
 	return string(j) + fmt.Sprintf(" code=%x", []byte(code))
 }
-
 
 // redoChecks (C07's last clause, checked on whole blocks): replaying the block's PUBLISHED change logs onto
 // its parent state (Manager.RebuildAll) must give the same observable account state as executing the block.
